@@ -18,6 +18,8 @@ Section Striping.
   Notation all0 := (CuckooConcInv.all0 cf).
   Notation auth := (CuckooConcInv.auth cf).
   Notation T := CuckooConcInv.T.
+  Notation allp := CuckooConcInv.allp.
+  Notation absent := (CuckooConcInv.absent cf).
 
   Definition optQ {A} (P : A -> tview -> Prop) : option A -> tview -> Prop :=
     fun r v => match r with Some x => P x v | None => True end.
@@ -280,6 +282,338 @@ Section Striping.
     - intros x Hx. destruct (c_fly Hc t x Hx) as (_ & A1 & A2 & _). destruct (Hfl x Hx) as (N1 & N2 & i & N3 & N4).
       split; [exists i; apply Hsup; auto|]. split; apply Hsup; auto.
     - intros Hp i Hi. apply Hsup; [intros E; eapply Hpe; eauto|]. apply (c_pend Hc t Hp i Hi).
+  Qed.
+
+
+  (** *** specifications of lock / try_lock / unlock *)
+  Lemma rown_me_iff g a t l : Core g a -> mic a t = MNone -> (rown g l = S t <-> In l (held a t)).
+  Proof.
+    intros Hc Hm. split.
+    - intros E. destruct (c_rown Hc l) as [E0|(t1 & E1 & E2 & _)]; [lia|]. assert (t1 = t) by lia. now subst.
+    - intros Hin. apply (c_rown2 Hc t l Hin); rewrite Hm; discriminate.
+  Qed.
+
+  Definition acquired (l : lk) (v v' : tview) : Prop :=
+    v_op v' = v_op v /\ v_held v' = l :: v_held v /\ v_mic v' = MNone /\ v_fly v' = v_fly v /\ v_pend v' = v_pend v.
+
+  Lemma frame_trans a a1 a2 t : Conc.frame view t a a1 -> Conc.frame view t a1 a2 -> Conc.frame view t a a2.
+  Proof. intros H1 H2 t' Hne. rewrite (H2 t' Hne). apply H1; exact Hne. Qed.
+
+  (** what [v] (a view of thread t before a locking step) knows about a state *)
+  Definition knows (v : tview) (g : G) : Prop :=
+    (has0 v -> mask g = v_mask v) /\ (forall tb b, tb < 2 -> auth v tb b -> T g tb b = v_reg v tb b).
+
+  Lemma knows_inv g a tr t : Inv g a tr -> knows (a_view a t) g.
+  Proof. intros [Hc _]. split; [apply (c_mask Hc)|apply (c_reg Hc)]. Qed.
+
+  (** what the caller does with the lock just obtained: [post] on the state, a new view, then [Q] *)
+  Definition post_ok (t : nat) (l : lk) (post : post_t) (v : tview) (Q : tview -> Prop) : Prop :=
+    forall g a tr, Inv g a tr -> acquired l v (a_view a t) -> v_mask (a_view a t) = mask g ->
+      (forall tb b, v_reg (a_view a t) tb b = T g tb b) -> knows v g ->
+      exists a', Inv (post g) a' tr /\ Conc.frame view t a a' /\ Q (a_view a' t).
+
+  Lemma safe_faa t l post (Q : tview -> Prop) v :
+    v_mic v = MNone -> In l (v_held v) -> post_ok t l post v Q ->
+    safe t (Act (a_rspin_faa l post) (fun _ => oret tt)) v (optQ (fun _ => Q)).
+  Proof.
+    intros Hm Hin Hpost. cbn [Conc.safe]. intros g a tr Hi Hv. unfold view in Hv. cbn [a_rspin_faa fst snd].
+    assert (Hma : mic a t = MNone) by (unfold mic; now rewrite Hv).
+    assert (Hia : In l (held a t)) by (unfold held; now rewrite Hv).
+    pose proof (Inv_lock_again g a tr t l Hi Hma Hia) as H1.
+    pose proof (knows_inv g a tr t Hi) as Hk. rewrite Hv in Hk.
+    set (a1 := setv a t (vlock g (a_view a t) (l :: held a t) MNone)) in *.
+    destruct (Hpost _ a1 _ H1) as (a2 & H2 & Hf & HQ).
+    - unfold a1. rewrite setv_same. unfold held. rewrite Hv. repeat split.
+    - unfold a1. now rewrite setv_same.
+    - intros tb b. unfold a1. now rewrite setv_same.
+    - exact Hk.
+    - exists a2. split; [exact H2|]. split; [eapply frame_trans; [apply frame_setv|exact Hf]|].
+      apply safe_oret. exact HQ.
+  Qed.
+
+  Lemma has0_cons (v : tview) l m r mi : has0 v -> has0 (mkTV (v_op v) (l :: v_held v) mi m r (v_fly v) (v_pend v)).
+  Proof. intros (i & Hi). exists i. now right. Qed.
+  Lemma auth_cons (v : tview) l m r mi tb b : auth v tb b -> auth (mkTV (v_op v) (l :: v_held v) mi m r (v_fly v) (v_pend v)) tb b.
+  Proof.
+    intros [(i & Hi) H]. split; [exists i; now right|]. destruct H as [H|H]; [left; now right|right; intros j Hj; right; auto].
+  Qed.
+
+  Lemma safe_own t l post (Q : tview -> Prop) v m r :
+    (has0 v -> m = v_mask v) -> (forall tb b, tb < 2 -> auth v tb b -> r tb b = v_reg v tb b) ->
+    post_ok t l post v Q ->
+    safe t (Act (a_rown_st l (S t) post) (fun _ => oret tt))
+         (mkTV (v_op v) (l :: v_held v) (MTaken l) m r (v_fly v) (v_pend v)) (optQ (fun _ => Q)).
+  Proof.
+    intros Hm' Hr' Hpost. cbn [Conc.safe]. intros g a tr Hi Hv. unfold view in Hv. cbn [a_rown_st fst snd].
+    assert (Hma : mic a t = MTaken l) by (unfold mic; now rewrite Hv).
+    pose proof (Inv_lock_own g a tr t l post Hi Hma) as H1.
+    pose proof (knows_inv g a tr t Hi) as [Hk1 Hk2]. rewrite Hv in Hk1, Hk2.
+    set (a1 := setv a t (vlock g (a_view a t) (held a t) MNone)) in *.
+    destruct (Hpost _ a1 _ H1) as (a2 & H2 & Hf & HQ).
+    - unfold a1. rewrite setv_same. unfold held. rewrite Hv. repeat split.
+    - unfold a1. now rewrite setv_same.
+    - intros tb b. unfold a1. now rewrite setv_same.
+    - split.
+      + intros H0. cbn [mask set_rown]. rewrite <- (Hm' H0). apply (Hk1 (has0_cons v l m r (MTaken l) H0)).
+      + intros tb b Htb Ha. unfold CuckooConcInv.T. cbn [tabs set_rown]. rewrite <- (Hr' tb b Htb Ha).
+        apply (Hk2 tb b Htb (auth_cons v l m r (MTaken l) tb b Ha)).
+    - exists a2. split; [exact H2|]. split; [eapply frame_trans; [apply frame_setv|exact Hf]|].
+      apply safe_oret. exact HQ.
+  Qed.
+
+  Lemma safe_r_acq t l (Q : tview -> Prop) v : lk_ok l -> v_mic v = MNone ->
+    (forall m r, (has0 v -> m = v_mask v) -> (forall tb b, tb < 2 -> auth v tb b -> r tb b = v_reg v tb b) ->
+       Q (mkTV (v_op v) (l :: v_held v) (MTaken l) m r (v_fly v) (v_pend v))) ->
+    forall fuel, safe t (r_acq_outer fuel l) v (optQ (fun _ => Q)) /\ safe t (r_acq_inner fuel l) v (optQ (fun _ => Q)).
+  Proof.
+    intros Hok Hm HQ fuel. induction fuel as [|f IH]; split; cbn [r_acq_outer r_acq_inner]; try exact I.
+    - cbn [Conc.safe]. intros g a tr Hi Hv. unfold view in Hv. unfold a_rspin_cas.
+      destruct (Nat.eqb_spec (rspin g l) 0) as [E|E]; cbn [fst snd].
+      + eexists. split; [apply (Inv_lock_take g a tr t l Hi Hok); [unfold mic; now rewrite Hv|exact E]|]. split; [apply frame_setv|].
+        unfold view. rewrite setv_same. cbn [vn vnat Nat.eqb]. apply safe_oret. unfold vlock, held. rewrite Hv.
+        pose proof (knows_inv g a tr t Hi) as [Hk1 Hk2]. rewrite Hv in Hk1, Hk2. apply HQ; auto.
+      + exists a. split; [eapply Inv_acc; eauto|]. split; [apply frame_refl|].
+        unfold view. rewrite Hv. cbn [vn vnat Nat.eqb]. apply IH.
+    - apply safe_silent; [silent|]. intros g a tr _ _. cbn [a_rspin_ld fst snd vn vnat].
+      destruct (Nat.eqb (rspin g l) 0); apply IH.
+  Qed.
+
+  Lemma safe_r_lock_post t l (post : post_t) (Q : tview -> Prop) fuel v :
+    lk_ok l -> v_mic v = MNone -> post_ok t l post v Q ->
+    safe t (r_lock fuel (S t) l post) v (optQ (fun _ => Q)).
+  Proof.
+    intros Hok Hm Hpost. unfold r_lock. cbn [Conc.safe]. intros g a tr Hi Hv. unfold view in Hv.
+    cbn [a_rown_ld fst snd]. exists a.
+    split; [eapply Inv_acc; eauto|]. split; [apply frame_refl|]. unfold view. rewrite Hv. cbn [vn vnat].
+    assert (Hma : mic a t = MNone) by (unfold mic; now rewrite Hv).
+    pose proof (rown_me_iff g a t l (proj1 Hi) Hma) as Hiff. unfold held in Hiff. rewrite Hv in Hiff.
+    destruct (Nat.eqb_spec (rown g l) (S t)) as [E|E].
+    - apply safe_faa; auto. now apply Hiff.
+    - apply safe_bindo. refine (proj1 (safe_r_acq t l _ v Hok Hm _ fuel)). intros m r Hm' Hr'. apply safe_own; auto.
+  Qed.
+
+  (** the usual case: nothing else is done in the locking step.  The new view has a fresh snapshot; what the old
+      view knew stays known *)
+  Definition extends (v v' : tview) : Prop :=
+    (has0 v -> v_mask v' = v_mask v) /\ (forall tb b, tb < 2 -> auth v tb b -> v_reg v' tb b = v_reg v tb b).
+
+  Lemma safe_r_lock t l (Q : tview -> Prop) fuel v :
+    lk_ok l -> v_mic v = MNone ->
+    (forall v', acquired l v v' -> extends v v' -> Q v') ->
+    safe t (r_lock fuel (S t) l nopost) v (optQ (fun _ => Q)).
+  Proof.
+    intros Hok Hm HQ. apply safe_r_lock_post; auto.
+    intros g a tr Hi Hacq Hmk Hrg [Hk1 Hk2]. exists a. split; [exact Hi|]. split; [apply frame_refl|].
+    apply HQ; auto. split.
+    - intros H0. rewrite Hmk. auto.
+    - intros tb b Htb Hau. rewrite Hrg. auto.
+  Qed.
+
+
+  Lemma safe_r_try_lock t l (Q : bool -> tview -> Prop) v :
+    lk_ok l -> v_mic v = MNone ->
+    (forall v', acquired l v v' -> extends v v' -> Q true v') -> Q false v ->
+    safe t (r_try_lock (S t) l) v Q.
+  Proof.
+    intros Hok Hm HQ1 HQ0. unfold r_try_lock. cbn [Conc.safe]. intros g a tr Hi Hv. unfold view in Hv.
+    cbn [a_rown_ld fst snd]. exists a.
+    split; [eapply Inv_acc; eauto|]. split; [apply frame_refl|]. unfold view. rewrite Hv. cbn [vn vnat].
+    assert (Hma : mic a t = MNone) by (unfold mic; now rewrite Hv).
+    pose proof (rown_me_iff g a t l (proj1 Hi) Hma) as Hiff. unfold held in Hiff. rewrite Hv in Hiff.
+    assert (Hpost : post_ok t l nopost v (Q true)).
+    { intros g1 a1 tr1 Hi1 Hacq Hmk Hrg [Hk1 Hk2]. exists a1. split; [exact Hi1|]. split; [apply frame_refl|].
+      apply HQ1; auto. split; [intros H0; rewrite Hmk; auto|intros tb b Htb Hau; rewrite Hrg; auto]. }
+    destruct (Nat.eqb_spec (rown g l) (S t)) as [E|E].
+    - assert (K := safe_faa t l nopost (Q true) v Hm (proj1 Hiff E) Hpost).
+      cbn [Conc.safe] in K |- *. intros g1 a1 tr1 Hi1 Hv1. destruct (K g1 a1 tr1 Hi1 Hv1) as (a2 & K1 & K2 & K3).
+      exists a2. split; auto.
+    - cbn [Conc.safe]. clear g a tr Hi Hv Hma Hiff E. intros g a tr Hi Hv. unfold view in Hv. unfold a_rspin_cas.
+      destruct (Nat.eqb_spec (rspin g l) 0) as [E|E]; cbn [fst snd].
+      + eexists. split; [apply (Inv_lock_take g a tr t l Hi Hok); [unfold mic; now rewrite Hv|exact E]|]. split; [apply frame_setv|].
+        unfold view. rewrite setv_same. cbn [vn vnat Nat.eqb]. unfold vlock, held. rewrite Hv.
+        pose proof (knows_inv g a tr t Hi) as [Hk1 Hk2]. rewrite Hv in Hk1, Hk2.
+        assert (K := safe_own t l nopost (Q true) v (mask g) (fun tb b => T g tb b) ltac:(auto) ltac:(auto) Hpost).
+        cbn [Conc.safe] in K |- *. intros g1 a1 tr1 Hi1 Hv1. destruct (K g1 a1 tr1 Hi1 Hv1) as (a2 & K1 & K2 & K3).
+        exists a2. split; auto.
+      + exists a. split; [eapply Inv_acc; eauto|]. split; [apply frame_refl|].
+        unfold view. rewrite Hv. cbn [vn vnat Nat.eqb]. exact HQ0.
+  Qed.
+
+  (** unlock() *)
+  Lemma safe_r_unlock t l (Q : tview -> Prop) v :
+    v_mic v = MNone -> In l (v_held v) ->
+    (cnt (v_held v) l = 1 ->
+       (forall x, In x (v_fly v) -> l <> (0, 0, h0 cf x mod L) /\ l <> (0, 1, h1 cf x mod L) /\ exists i, (0, 0, i) <> l /\ In (0, 0, i) (v_held v)) /\
+       (v_pend v <> [] -> forall i, l <> (0, 0, i))) ->
+    Q (vrel v (rem1 l (v_held v)) MNone) ->
+    safe t (r_unlock l) v (fun _ => Q).
+  Proof.
+    intros Hm Hin Hcond HQ. unfold r_unlock. cbn [Conc.safe]. intros g a tr Hi Hv. unfold view in Hv.
+    cbn [a_rspin_ld fst snd]. exists a.
+    split; [eapply Inv_acc; eauto|]. split; [apply frame_refl|]. unfold view. rewrite Hv. cbn [vn vnat].
+    assert (Hs : rspin g l = cnt (v_held v) l).
+    { rewrite (c_spin (proj1 Hi) t l); unfold held; rewrite Hv; auto. }
+    rewrite Hs. assert (Hpos : 0 < cnt (v_held v) l) by (now apply in_cnt).
+    destruct (Nat.ltb_spec 1 (cnt (v_held v) l)) as [Hgt|Hle].
+    - cbn [Conc.safe]. clear g a tr Hi Hv Hs. intros g a tr Hi Hv. unfold view in Hv. cbn [a_rspin_st fst snd].
+      eexists. split; [|split; [apply frame_setv|]].
+      + replace (cnt (v_held v) l - 1) with (cnt (held a t) l - 1) by (unfold held; now rewrite Hv).
+        apply (Inv_unlock_dec g a tr t l Hi); [unfold mic; now rewrite Hv|unfold held; now rewrite Hv].
+      + unfold view. rewrite setv_same. unfold held. rewrite Hv. exact HQ.
+    - assert (H1 : cnt (v_held v) l = 1) by lia. destruct (Hcond H1) as [Hfl Hpe].
+      cbn [Conc.safe]. clear g a tr Hi Hv Hs. intros g a tr Hi Hv. unfold view in Hv. cbn [a_rown_st fst snd].
+      eexists. split; [apply (Inv_unlock_disown g a tr t l Hi); [unfold mic; now rewrite Hv|unfold held; now rewrite Hv]|]. split; [apply frame_setv|].
+      unfold view. rewrite setv_same. unfold held. rewrite Hv. cbn [Conc.safe]. clear g a tr Hi Hv.
+      intros g a tr Hi Hv. unfold view in Hv. cbn [a_rspin_st fst snd].
+      eexists. split; [apply (Inv_unlock_free g a tr t l Hi); [unfold mic; now rewrite Hv|unfold fly, held; rewrite Hv; exact Hfl|unfold pend; rewrite Hv; exact Hpe]|]. split; [apply frame_setv|].
+      unfold view. rewrite setv_same. unfold held. rewrite Hv. cbn [vrel v_held v_op v_mask v_reg v_fly v_pend]. exact HQ.
+  Qed.
+
+
+  (** *** inside a critical section: the abstract set and the two probe sets of a key *)
+  Definition bk (g : G) (k tb : nat) : nat := hsel (hashes cf k) tb mod S (mask g).
+  Definition lookup (g : G) (k : nat) : option item :=
+    match kget k (T g 0 (bk g k 0)) with Some x => Some x | None => kget k (T g 1 (bk g k 1)) end.
+
+  (** thread t may access both probe sets of key k and has nothing in flight or pending *)
+  Definition in_cs (g : G) (a : Aux) (t k : nat) : Prop :=
+    (forall tb, tb < 2 -> auth (a_view a t) tb (bk g k tb)) /\ fly a t = [] /\ pend a t = [].
+
+  Lemma cs_no_other g a t k x : Core g a -> in_cs g a t k -> fst x = k ->
+    (forall t0, ~ In x (fly a t0)) /\ (forall t0, ~ In x (pend a t0)).
+  Proof.
+    intros Hc (Hau & Hf & Hp) Hk. split; intros t0 Hin.
+    - destruct (Nat.eq_dec t0 t) as [->|Hne]; [rewrite Hf in Hin; destruct Hin|].
+      pose proof (fly_auth cf g a t0 x 0 Hc Hin ltac:(lia)) as Ha0.
+      eapply (auth_other_none cf g a t t0 0 (bk g k 0) Hc (Hau 0 ltac:(lia)) Hne).
+      unfold bk. rewrite <- Hk. exact Ha0.
+    - destruct (Nat.eq_dec t0 t) as [->|Hne]; [rewrite Hp in Hin; destruct Hin|].
+      assert (Hp0 : pend a t0 <> []) by (intros E; rewrite E in Hin; destruct Hin).
+      pose proof (c_pend Hc t0 Hp0) as Hall. destruct (Hau 0 ltac:(lia)) as [(i & Hi) _].
+      apply Hne. eapply (c_excl Hc); [apply Hall; apply (c_range Hc t 0 0 i Hi)|exact Hi].
+  Qed.
+
+  Lemma abs_lookup g a t k s : Core g a -> in_cs g a t k -> NoDup (keys s) -> (forall x, In x s <-> allp g a x) ->
+    kget k s = lookup g k.
+  Proof.
+    intros Hc Hcs Hnd Hs. unfold lookup.
+    assert (Hin_s : forall tb x, tb < 2 -> In x (T g tb (bk g k tb)) -> In x s).
+    { intros tb x Htb Hx. apply Hs. left. eauto. }
+    destruct (kget k (T g 0 (bk g k 0))) as [x|] eqn:E0.
+    - apply kget_some in E0. destruct E0 as [Hx Hk]. apply kget_unique; auto. apply (Hin_s 0); auto.
+    - destruct (kget k (T g 1 (bk g k 1))) as [x|] eqn:E1.
+      + apply kget_some in E1. destruct E1 as [Hx Hk]. apply kget_unique; auto. apply (Hin_s 1); auto.
+      + apply kget_none. apply khas_false. intros o Hin. apply Hs in Hin.
+        destruct Hin as [(tb & b & Htb & Hx)|[(t0 & Hx)|(t0 & Hx)]].
+        * pose proof (c_placed Hc tb b (k, o) Htb Hx) as Hb. unfold hx in Hb. cbn [fst] in Hb. fold (bk g k tb) in Hb. subst b.
+          destruct tb as [|[|tb]]; [| |lia].
+          -- apply kget_none in E0. rewrite khas_false in E0. eapply E0; eauto.
+          -- apply kget_none in E1. rewrite khas_false in E1. eapply E1; eauto.
+        * eapply (proj1 (cs_no_other g a t k (k, o) Hc Hcs eq_refl)); eauto.
+        * eapply (proj2 (cs_no_other g a t k (k, o) Hc Hcs eq_refl)); eauto.
+  Qed.
+
+  Lemma lookup_bucket g a k x : Core g a -> lookup g k = Some x ->
+    fst x = k /\ exists tb, tb < 2 /\ In x (T g tb (bk g k tb)) /\ forall tb', tb' < 2 -> tb' <> tb -> khas k (T g tb' (bk g k tb')) = false.
+  Proof.
+    intros Hc. unfold lookup. destruct (kget k (T g 0 (bk g k 0))) as [y|] eqn:E0.
+    - intros E. inversion E; subst y. apply kget_some in E0. destruct E0 as [Hx Hk]. split; auto. exists 0. split; [lia|]. split; auto.
+      intros tb' H1 H2. assert (tb' = 1) by lia. subst tb'. apply khas_false. intros o Hin.
+      eapply (c_cross Hc _ _ x (k, o)); eauto.
+    - intros E1. apply kget_some in E1. destruct E1 as [Hx Hk]. split; auto. exists 1. split; [lia|]. split; auto.
+      intros tb' H1 H2. assert (tb' = 0) by lia. subst tb'. now apply kget_none.
+  Qed.
+
+
+  (** *** linearization points *)
+  Definition with_op (v : tview) (o : status ISet) : tview :=
+    mkTV o (v_held v) (v_mic v) (v_mask v) (v_reg v) (v_fly v) (v_pend v).
+
+  Lemma st_setv (st : nat -> status ISet) a t v' x :
+    (forall t0, st t0 = v_op (a_view a t0)) -> v_op v' = x ->
+    forall t0, Lin.upd st t x t0 = v_op (a_view (setv a t v') t0).
+  Proof.
+    intros H Hx t0. unfold Lin.upd. destruct (Nat.eqb_spec t0 t) as [->|Hn].
+    - now rewrite setv_same.
+    - rewrite setv_other by exact Hn. apply H.
+  Qed.
+
+  (** only the status of t's operation changes in the views *)
+  Lemma Core_with_op g a t o : Core g a -> Core g (setv a t (with_op (a_view a t) o)).
+  Proof.
+    intros Hc. apply (Core_lock cf g g a t _ Hc); cbn [with_op v_held v_mic v_mask v_reg v_fly v_pend]; auto.
+    - intros l Hin. split; [apply (c_spin Hc t l Hin)|]. intros t0 Hne H'. apply Hne. eapply (c_excl Hc); eauto.
+    - intros l Hn. destruct (c_spin0 Hc l Hn) as (t0 & Hin). destruct (Nat.eq_dec t0 t) as [->|Hne]; [now left|right; eauto].
+    - intros l Hoth. destruct (c_rown Hc l) as [E|(t1 & E1 & E2 & E3 & E4)]; [now left|].
+      destruct (Nat.eq_dec t1 t) as [->|Hne]; [|exfalso; eapply Hoth; eauto]. right. auto.
+    - intros l. apply (c_rown2 Hc t l).
+    - intros l. apply (c_mic Hc t l).
+    - intros gg tb i. apply (c_range Hc t gg tb i).
+    - intros H. symmetry. now apply (c_mask Hc t).
+    - intros tb b Htb H. symmetry. now apply (c_reg Hc t tb b).
+    - intros x Hx. destruct (c_fly Hc t x Hx) as (A & B & C & _). auto.
+    - apply (c_pend Hc t).
+  Qed.
+
+  Lemma allp_with_op g a t o atr : forall x, allp g (seta (setv a t (with_op (a_view a t) o)) atr) x <-> allp g a x.
+  Proof.
+    intros x. apply allp_ext; auto; intros t0; unfold fly, pend; cbn [a_view seta];
+      (destruct (Nat.eq_dec t0 t) as [->|Hne]; [now rewrite setv_same|now rewrite setv_other]).
+  Qed.
+
+  (** a linearization point that does not change the set: the result is decided by the lookup of the key *)
+  Lemma Inv_lp_read g g' a tr t k (o : iop) (r : res) kk ob ok :
+    Inv g a tr -> rspin g' = rspin g -> rown g' = rown g -> mask g' = mask g -> tabs g' = tabs g ->
+    v_op (a_view a t) = Pending (o : Op ISet) -> in_cs g a t k ->
+    (forall s, kget k s = lookup g k -> istep s o = (s, r)) ->
+    Inv g' (seta (setv a t (with_op (a_view a t) (Linearized (o : Op ISet) (r : Res ISet)))) (a_atr a ++ [ALin t]))
+        (tr ++ Conc.tag t [EvAcc kk ob ok]).
+  Proof.
+    intros [Hc Ha] C1 C2 C3 C4 Hop Hcs Hstep. split.
+    - apply Core_seta. eapply Core_same; [apply (Core_with_op g a t _ Hc)|auto..].
+    - destruct Ha as [Hd|(s & st & H1 & H2 & H3 & H4 & H5)]; [left; now apply dropped_app|right].
+      exists s, (Lin.upd st t (Linearized (o : Op ISet) (r : Res ISet))). cbn [a_atr seta a_view].
+      pose proof (Hstep s (abs_lookup g a t k s Hc Hcs H4 H5)) as Hst.
+      split; [|split; [|split; [|split]]].
+      + eapply lp_ext; [exact H1|]. cbn [lp_step]. rewrite H3, Hop. cbn [sstep ISet mkSpec]. rewrite Hst. reflexivity.
+      + rewrite erase_app, hist_of_acc. cbn. now rewrite app_nil_r.
+      + apply st_setv; auto.
+      + exact H4.
+      + intros x. rewrite H5. symmetry.
+        etransitivity; [|apply (allp_with_op g a t (Linearized (o : Op ISet) (r : Res ISet)) (a_atr a ++ [ALin t]))].
+        apply allp_ext; auto. intros. unfold CuckooConcInv.T. now rewrite C4.
+  Qed.
+
+
+  (** *** steps that replace one probe set *)
+  Lemma Inv_table g g' a tr t v' atr' kk ob ok :
+    Core g a -> Core g' (setv a t v') -> Abs g a tr ->
+    (forall s st, lp_run lp_init (a_atr a) = Some (s, st) -> erase (a_atr a) = hist_of tr ->
+        (forall t0, st t0 = v_op (a_view a t0)) -> NoDup (keys s) -> (forall x, In x s <-> allp g a x) ->
+        exists s' st', lp_run lp_init atr' = Some (s', st') /\ erase atr' = hist_of tr /\
+          (forall t0, st' t0 = v_op (a_view (setv a t v') t0)) /\ NoDup (keys s') /\
+          forall x, In x s' <-> allp g' (setv a t v') x) ->
+    Inv g' (seta (setv a t v') atr') (tr ++ Conc.tag t [EvAcc kk ob ok]).
+  Proof.
+    intros Hc Hc' Ha Habs. split; [now apply Core_seta|].
+    destruct Ha as [Hd|(s & st & H1 & H2 & H3 & H4 & H5)]; [left; now apply dropped_app|right].
+    destruct (Habs s st H1 H2 H3 H4 H5) as (s' & st' & K1 & K2 & K3 & K4 & K5).
+    exists s', st'. cbn [a_atr seta a_view]. rewrite hist_of_acc. split; [exact K1|]. split; [exact K2|]. split; [exact K3|]. split; [exact K4|].
+    intros x. rewrite K5. apply allp_ext; auto.
+  Qed.
+
+  (** a move of items between a probe set and the in-flight / pending items of the thread: no linearization point *)
+  Lemma Inv_move g g' a tr t v' tb b new kk ob ok :
+    Inv g a tr -> Core g' (setv a t v') -> tabs g' = set_bkt (tabs g) tb b new -> tb < 2 -> b < S (mask g) ->
+    v_op v' = v_op (a_view a t) ->
+    (forall x, In x new \/ In x (v_fly v') \/ In x (v_pend v') <-> In x (T g tb b) \/ In x (fly a t) \/ In x (pend a t)) ->
+    Inv g' (setv a t v') (tr ++ Conc.tag t [EvAcc kk ob ok]).
+  Proof.
+    intros [Hc Ha] Hc' Ct Htb Hb Hop Hmv. split; [exact Hc'|].
+    destruct Ha as [Hd|(s & st & H1 & H2 & H3 & H4 & H5)]; [left; now apply dropped_app|right].
+    exists s, st. rewrite hist_of_acc. split; auto. split; auto. split.
+    - intros t0. rewrite H3. destruct (Nat.eq_dec t0 t) as [->|Hne]; [now rewrite setv_same|now rewrite setv_other].
+    - split; auto. intros x. rewrite H5. symmetry. eapply allp_move; eauto.
   Qed.
 
 End Striping.
